@@ -104,6 +104,14 @@ func makeSubject(cfg Cfg, count bool) Subject {
 		case "kv":
 			return makeKV(cfg, d, count)
 		}
+	case "float":
+		d := floatDom(n, cfg.Cmp, int(cfg.MapSeed>>24%uint64(len(specialFloats))))
+		switch fam {
+		case "set":
+			return newSetSubj(cfg, d, count)
+		case "kv":
+			return makeKV(cfg, d, count)
+		}
 	case "item":
 		d := itemDom(n, cfg.Cmp)
 		switch fam {
@@ -120,6 +128,35 @@ func makeSubject(cfg Cfg, count bool) Subject {
 	panic(fmt.Sprintf("makeSubject: unsupported %s/%s", cfg.Kind, cfg.Elem))
 }
 
+// floatOK: the float element type (with NaN) goes with the comparator-based key containers in the
+// model-comparing worlds, and with every set/map kind in the C15 world (whose oracles are agreement
+// rules, not a model: Go maps never find a NaN key again, which is the hash containers' documented
+// behaviour, not a defect).
+func floatOK(prop, kind string) bool {
+	switch kind {
+	case "treemap", "redblacktree", "avltree", "btree", "treebidimap", "treeset":
+		return true
+	case "hashset", "linkedhashset", "hashmap", "linkedhashmap":
+		// (not HashBidiMap: with a NaN key its two Go maps drift apart, which is Go map semantics on a
+		// key that is not equal to itself, outside any documented use)
+		return prop == "C15"
+	}
+	return false
+}
+
+// useFloat switches a drawn configuration to float elements.
+func useFloat(r *Rng, cfg *Cfg) {
+	cfg.Elem = "float"
+	cfg.Cmp = r.PickS("nat", "nat", "rev")
+	cfg.Ctor = ""
+	if cfg.Kind == "treebidimap" {
+		cfg.VCmp = r.PickS("nat", "rev")
+	}
+	if cfg.Cmp == "nat" && (cfg.VCmp == "" || cfg.VCmp == "nat") && r.Bool() {
+		cfg.Ctor = "default"
+	}
+}
+
 // genCfg draws the swarm configuration of one run.
 func genCfg(r *Rng, kinds []string, tier string) Cfg {
 	cfg := Cfg{Kind: kinds[r.Intn(len(kinds))]}
@@ -131,12 +168,12 @@ func genCfg(r *Rng, kinds []string, tier string) Cfg {
 	}
 	if usesCmp(cfg.Kind) {
 		cs := cmpsFor(cfg.Elem)
-		cfg.Cmp = cs[[]int{0, 0, 0, 0, 0, 1, 1, 2, 2, 3, 3, 4, 4}[r.Intn(13)]%len(cs)]
+		cfg.Cmp = cs[[]int{0, 0, 0, 0, 0, 1, 1, 2, 2, 3, 3, 4, 4, 5, 5}[r.Intn(15)]%len(cs)]
 	} else {
 		cfg.Cmp = "nat"
 	}
 	if cfg.Kind == "treebidimap" {
-		cfg.VCmp = strCmps[r.Weighted(5, 2, 2, 2, 2)]
+		cfg.VCmp = strCmps[r.Weighted(5, 2, 2, 2, 2, 2)]
 	}
 	if cfg.Kind == "btree" {
 		cfg.Order = []int{3, 3, 3, 4, 4, 5, 5, 6, 7, 8, 9, 10, 11, 12, 16, 17, 32}[r.Intn(17)]
@@ -152,5 +189,8 @@ func genCfg(r *Rng, kinds []string, tier string) Cfg {
 		cfg.VDom = r.Range(2, 9)
 	}
 	cfg.MapSeed = r.U64()
+	if usesCmp(cfg.Kind) && familyOf(cfg.Kind) != "list" && cfg.Cmp == "nat" && (cfg.VCmp == "" || cfg.VCmp == "nat") && cfg.Elem != "item" && r.Bool() {
+		cfg.Ctor = "default" // New(): the default comparator path
+	}
 	return cfg
 }
